@@ -227,12 +227,13 @@ def main(argv):
             res = call_plain(modname, expr, env)
             validated += 1
             smoke_report.append({"call": expr, "outcome": res["outcome"]})
-            if res["outcome"] in ("false", "raises"):
-                violations.append({"condition": c["fn"], "call": expr,
-                                   "result": res, "source": "smoke"})
-            elif res["outcome"] != "true":
-                harness_errors.append("smoke %s -> %s %s" % (
-                    expr, res["outcome"], res.get("detail", "")))
+            if res["outcome"] != "true":
+                # a fixed input failing concretely: the solver conditions
+                # decide whether this is a violation; alone it only shows
+                # that harness and code disagree
+                harness_errors.append("smoke %s -> %s %s %s" % (
+                    expr, res["outcome"], res.get("exception", ""),
+                    res.get("detail", "")))
 
     # ---- verdicts --------------------------------------------------------
     cond_report = []
